@@ -4,4 +4,5 @@ CONSTANTS
   FaultFields = {}
   ZeroId = 0
   HdrCuts = {0, 1, 2, 3}
+  ExciseMax = 1000
 CHECK_DEADLOCK FALSE
